@@ -194,8 +194,11 @@ func GenC18(seed, run uint64, tier, mode string) *plan.Plan {
 		nshared = r.Range(3, 6)
 		for i := 0; i < nshared; i++ {
 			d := GenDec(r, true)
-			if r.Chance(1, 2) {
-				d = plan.Dec{Coeff: randDigits(r, 1+r.Intn(30)), Exp: int32(r.Range(-3000, 3000))}
+			if r.Chance(2, 3) {
+				// exponents far apart: caches of large powers of ten and other
+				// rarely used shared state sit behind gaps of thousands of digits
+				e := []int32{0, int32(r.Range(-40, 40)), int32(r.Range(-2000, 2000)), int32(r.Range(4000, 9000)), -int32(r.Range(4000, 9000)), int32(r.Range(-9000, 9000))}[r.Intn(6)]
+				d = plan.Dec{Coeff: randDigits(r, 1+r.Intn(30)), Exp: e, Neg: r.Chance(1, 4)}
 			}
 			p.Shared = append(p.Shared, d)
 		}
@@ -589,6 +592,21 @@ func runC18(p *plan.Plan, keepLog bool, soloOnly bool) (*plan.Result, *C18Stats)
 		}
 	}
 
+	if deadlocked() {
+		inflight := ""
+		for ti := range p.Tasks {
+			if ti < len(sDeadlockOps) && sDeadlockOps[ti] >= 0 && int(sDeadlockOps[ti]) < len(p.Tasks[ti].Steps) {
+				si := sDeadlockOps[ti]
+				inflight += fmt.Sprintf(" task %d: step %d %s;", ti, si, p.Tasks[ti].Steps[si].Op)
+			}
+		}
+		addViol(plan.Violation{Property: "C18", Class: "C18/deadlock", Key: "deadlock",
+			Detail: "every live task waits for a lock that none of them can release (calls that complete when run alone do not return when run concurrently);" + inflight})
+		for _, tr := range runs {
+			tr.viol = nil
+		}
+	}
+	res.Stats["fault_lock_wait"] = sLockWaits
 	for ti, tr := range runs {
 		if tr.viol != nil {
 			addViol(*tr.viol)
